@@ -91,7 +91,11 @@ def run_case(case):
     try:
         if op == "ctor_wide":
             v, n = case["a"][0], case["a"][1]
-            expect_raises(lambda: Bitset(v, n), ValueError, "ctor_wide")
+            if case["a"][2] == "bytes_len":
+                raw = v.to_bytes((v.bit_length() + 7) // 8, "big")
+                expect_raises(lambda: Bitset(raw, n), ValueError, "ctor_wide")
+            else:
+                expect_raises(lambda: Bitset(v, n), ValueError, "ctor_wide")
             return
         if op == "half_int":
             v = case["a"][0]
@@ -325,7 +329,9 @@ def st_case(draw):
         n = draw(st.integers(1, 300))
         extra = draw(st.integers(1, 9))
         v = (1 << (n + extra - 1)) | draw(st.integers(0, (1 << (n + extra - 1)) - 1))
-        case["a"] = [v, n, "int_len"]
+        if draw(st.integers(0, 2)) == 0:
+            v = draw(st.sampled_from([1 << n, (1 << n) + 1, (1 << (n + 1)) - 1]))   # the first values that do not fit
+        case["a"] = [v, n, draw(st.sampled_from(["int_len", "int_len", "bytes_len"]))]
         return case
     if op in ("half_int", "ctor_bytes_nolen"):
         k = draw(st.integers(1, 300))
